@@ -41,6 +41,10 @@ WITNESS_TESTS = {
     "pairs_fn": ["Socket::send_multipart", "RouterSocket::with_room_for_identity", "RouterSocket::transform_qitem_to_app_frames", "dealer_send_multipart_admission", "DealerSocket::prepare_full_multipart_send_sequence", "rep_assemble_reply", "send_take_request"],
     "what": "messages at / beyond the 255-frame capacity through Socket::send_multipart (256), DEALER and ROUTER send (255 + delimiter), a REP reply (255 + envelope) and a ROUTER receiving 255 frames: error, never a panic",
   },
+  "c04_data_with_last_handshake_bytes": {
+    "file": "witness/c04_data_with_last_handshake_bytes.rs", "props": ["C04"], "pairs_fn": ["hs_app_actions", "ZmtpEngine::process_ready", "ZmtpEngine::process_v2_identity"],
+    "what": "raw TCP peer writes greeting + READY (or the ZMTP/2.0 identity frame) + two messages in ONE write to a PULL socket: both messages are delivered",
+  },
   "c11_router_takeover_then_old_detach": {
     "file": "witness/c11_router_takeover_then_old_detach.rs", "props": ["C11"], "pairs_fn": ["RouterMap::remove_peer_by_read_pipe", "RouterMap::update_peer_identity", "RouterMap::add_peer"],
     "what": "DEALER reconnects with the same routing id while the ROUTER still holds the old connection; after the old connection is detached the identity still routes to the live one",
@@ -154,8 +158,10 @@ PROPS["C04"] = {
   "kani_quick": [], "kani_thorough": [],
   "claim": "Engine level, proved unbounded: (1) the decoders consume nothing and change no state on an incomplete frame, and the 'append; decode until None' loop equals the spec function drain(), which lemma_cut_independent / lemma_any_segmentation "
            "prove independent of how the byte stream is cut into reads; (2) grouping into messages carries the partial message across calls (process_data contract), so deliveries depend on the frame sequence only; "
-           "(3) every handler that ends in the Data phase (process_ready, process_v2_identity, process_greeting, on_network_bytes) has drained the accumulator in the same call: frames that arrive with the last handshake bytes are delivered in that output, not left behind.",
-  "level_note": "What the session actor does with those DeliverMessage actions during the handshake phase (actor.rs apply_engine_output_handshake) is outside the units; io_uring handler not covered. The abstract framer's would_block ghost predicate is tied to real code only for NullFramer (dec_step).",
+           "(3) every handler that ends in the Data phase (process_ready, process_v2_identity, process_greeting, on_network_bytes) has drained the accumulator in the same call: frames that arrive with the last handshake bytes are delivered in that output, not left behind; "
+           "(4) the session actor's handshake-phase handler (apply_engine_output_handshake, its application-action loop extracted as a region) appends every such delivery, in order, to the ingress queue the operational loop hands to the socket "
+           "(deliveries stop only at a PeerError).",
+  "level_note": "The io_uring handler is not covered; the operational loop's own handling of DeliverMessage (ingress_buffer.push_back inside tokio::select!) is read, not under contract. The abstract framer's would_block ghost predicate is tied to real code only for NullFramer (dec_step).",
   "technique": "contract-based deductive verification (Verus) + pure lemmas over the contract spec functions",
   "trusted_base": ENGINE_TRUSTED,
   "assumptions": ["transport delivers bytes in order (TCP/IPC)"],
@@ -209,7 +215,7 @@ PROPS["C06"]["level_note"] = ("Relative to the abstract Mechanism contract for C
                               "When the Verus route cannot decide after an edit (rewrite anchor lost / construct outside the subset), the bounded Kani harness on the real PLAIN mechanism runs as fallback (bounded, never counted as proved).")
 PROPS["C07"]["units"] = ["dec", "framer", "engine", "framebatch", "command", "plain", "greeting", "codec", "flags"]
 PROPS["C03"]["units"] = ["dec", "enc", "framer", "c03lem", "codec"]
-PROPS["C04"]["units"] = ["engine", "framer", "c03lem", "dec", "codec"]
+PROPS["C04"]["units"] = ["engine", "framer", "c03lem", "dec", "codec", "hsout"]
 
 PROPS["C18"]["claim"] = ("Record layer only, for ANY cipher (encrypt/decrypt abstract): writers return either an error or a record whose 16-bit big-endian length prefix equals the number of ciphertext bytes that follow; "
                          "the reader (LengthPrefixedFramer::try_read_msg) cuts records exactly at their announced length, consumes them whole and in order, hands each to the cipher exactly once, and leaves an incomplete record untouched "
